@@ -10,7 +10,8 @@ Driver `genc`: the codec line protocol (`harness/CODEC_PROTOCOL.md`) answered by
   `[@OPT] de <T> <hex>`          → `ok <V> <consumed bytes>` | `err:<kind>`
   `[@OPT] paths ser|de <T>`      → `ok <helper> <helper> …`       helper each emitted site of `T`'s own function uses
 
-`@OPT` = `@any` (default) or `@little`, optionally `,fill=<byte>` (prior content of destination arrays) and
+`@OPT` = `@any` (default) or `@little`, optionally `,fill=<byte>` (prior content of destination arrays),
+`,asserts` (enable_serialization_asserts: a failing NUNAVUT_ASSERT is answered `err:assert`) and
 `,orc=never` (oracle that never claims alignment; default: the exact oracle).  A model-level failure of a primitive
 (never expected; proved unreachable) is answered `err:prim-<name>`.
 
@@ -190,6 +191,7 @@ open NunavutVerif.GenC
 def showErr : GenC.Err → String
   | .prim e => "err:prim-" ++ e.name
   | .illTyped => "bad-op"
+  | .assert => "err:assert"
   | .ret c =>
     if c = -3 then "err:buffer-too-small"
     else if c = -10 then "err:bad-array-length"
@@ -215,6 +217,7 @@ def parseOpts (s : String) : Option Opts :=
     rest.foldl (fun acc kv => acc.bind fun o =>
       match kv.splitOn "=" with
       | ["fill", n] => n.toNat?.map fun n => { o with fill := n }
+      | ["asserts"] => some { o with asserts := true }
       | ["orc", "never"] => some { o with orc := neverOrc }
       | ["orc", "exact"] => some o
       | _ => none) base
